@@ -1,6 +1,7 @@
 import CssVerif.Lemmas.StrCodec
 import CssVerif.Lemmas.StrExact
 import CssVerif.Gen.C03Productions
+import CssVerif.Gen.C05Productions
 /-!
 # C03 — serialise-then-parse is lossless; serialisation is a fixpoint (content codecs)
 
@@ -9,20 +10,21 @@ Property theorems only (helpers: `Lemmas/StrCodec.lean`). Models: `Model/StrCode
 tied to the source by `tools/harness/c03.py`.
 
 `strE v` is what the serializer writes for a stored STRING value `v` (`helper.string`), `strD t` is what the DOM
-stores for a STRING token text `t` (`unicodesub`/`_repl`, `cleanstring`, `stringvalue`).
+stores for a STRING token text `t` (`stringsub`/`_repl`: escapes decoded and line continuations removed in one
+pass, then `stringvalue`).
 -/
 namespace CssVerif.C03
 open CssVerif.StrCodec CssVerif.Proto
 
 /-- T3.1 (strings, lossless): for EVERY safe stored value, what `helper.string` writes is read back as that value. -/
 theorem string_roundtrip (v : List Nat) (h : SafeStr v) : strD (strE v) = some v :=
-  strD_strE_of_scan .str rfl v h
+  strD_strE_of_scan .quoted v h
 
 /-- T3.1 (strings, one token): for every safe stored value and every following text, the STRING production matches
 exactly the written text — the value does not end the string early and does not swallow what follows. -/
 theorem string_single_token (v rest : List Nat) (h : SafeStr v) :
     lexString (strE v ++ rest) = some (strE v).length := by
-  have := lex_encTail .str rfl v rest h
+  have := lex_encTail .quoted rfl v rest h
   simp only [strE, helperString_eq, lexString, List.cons_append, true_or, if_true, this]
   simp
 
@@ -65,19 +67,23 @@ theorem token_value_stable (found : List Nat) :
 /-- T3.4 (comments, identifiers without a backslash are kept verbatim, whatever else they contain) -/
 theorem verbatim_without_backslash (k : TokKind) (s : List Nat) (h : ∀ x ∈ s, x ≠ 0x5C) : tokValue k s = s := by
   cases k with
-  | string => simp only [tokValue]; rw [usub_no_bs s h, clean_no_bs s h]
+  | string => exact ssub_no_bs s h
   | other => exact usub_no_bs s h
   | raw => rfl
 
-/-- a stored value without a backslash is always safe, as a string and as a URL unless it needs a character the
-unquoted form cannot carry — so `'`, `"`, line breaks, parentheses, non-ASCII … all round trip (T3.1 non-vacuity
-for the content classes the property names) -/
-theorem safe_without_backslash (v : List Nat) (h : ∀ x ∈ v, x ≠ 0x5C) :
-    SafeStr v ∧ (forbMatch v = true → SafeUri v) := by
-  refine ⟨scan_no_bs .str v h, ?_⟩
-  intro hf
-  simp only [SafeUri, uriClass, hf, if_true]
-  exact scan_no_bs .uriQ v h
+/-- T3.4 comments: the tokenizer keeps a COMMENT token as found (no escape decoding inside comments), whatever it
+contains -/
+theorem comment_verbatim (c : List Nat) : tokValue .raw c = c := rfl
+
+/-- a stored value without a backslash is always safe, as a string and as a URL, whatever else it contains —
+quotes, line breaks, parentheses, control characters, non-ASCII (T3.1 non-vacuity for the content classes the
+property names) -/
+theorem safe_without_backslash (v : List Nat) (h : ∀ x ∈ v, x ≠ 0x5C) : SafeStr v ∧ SafeUri v := by
+  refine ⟨scan_no_bs .quoted v h, ?_⟩
+  simp only [SafeUri, uriClass]
+  split
+  · exact scan_no_bs .quoted v h
+  · exact scan_no_bs .unquoted v h
 
 /-- T3.3 for string content parsed from a source without backslashes (either quote style, any other character):
 the stored value is the text between the quotes, it is safe, and serialise-parse gives it back.
@@ -92,10 +98,10 @@ theorem parsed_string_roundtrip_partial (q : Nat) (body : List Nat) (hq : q ≠ 
     · exact hq
     · exact h x hx
     · exact hq
-  have hs : SafeStr body := scan_no_bs .str body h
+  have hs : SafeStr body := scan_no_bs .quoted body h
   refine ⟨?_, hs, string_roundtrip body hs⟩
   have e1 : tokValue .string (q :: (body ++ [q])) = q :: (body ++ [q]) := by
-    simp only [tokValue]; rw [usub_no_bs _ hall, clean_no_bs _ hall]
+    simp only [tokValue]; rw [ssub_no_bs _ hall]
   simp only [strD, List.cons_append, e1, stringvalue]
   rw [replace2_no_a _ hall]
   simp [inner]
@@ -141,37 +147,36 @@ theorem finding_escaped_dquote :
     strD [0x27, 0x61, 0x5C, 0x22, 0x62, 0x27] = some [0x61, 0x5C, 0x22, 0x62] ∧ ¬ SafeStr [0x61, 0x5C, 0x22, 0x62] ∧
     lexString (strE [0x61, 0x5C, 0x22, 0x62]) = some 5 ∧ (strE [0x61, 0x5C, 0x22, 0x62]).length = 7 := by decide
 
-/-- `C03-string-backslash-sequence` (source route: cleanstring runs after unicodesub): the source
-`"\\\a 41"` (escaped backslash, escaped line feed, `41`) is stored as `\41`, which is written `"\41"` and read
-back as `A`. The negation of "every value the parser stores is safe". -/
-theorem finding_parsed_value_unsafe :
-    ∃ t, lexString t = some t.length ∧ ∃ v, strD t = some v ∧ ¬ SafeStr v ∧ strD (strE v) ≠ some v :=
-  ⟨[0x22, 0x5C, 0x5C, 0x5C, 0x61, 0x20, 0x34, 0x31, 0x22], by decide, [0x5C, 0x34, 0x31], by decide, by decide, by decide⟩
+/-! findings that were fixed in the tree (12a90a6, be395e5, 975ab00, 1fb8b63): their witnesses now round trip -/
 
-/-- `C03-uri-line-continuation`: `url("a\<LF>b")` keeps backslash + line feed (URI tokens are not cleaned);
-it is written `url("a\\a b")` and read back as `a\\a b`. -/
-theorem finding_uri_line_continuation :
-    uriD [0x75, 0x72, 0x6C, 0x28, 0x22, 0x61, 0x5C, 0xA, 0x62, 0x22, 0x29] = some [0x61, 0x5C, 10, 0x62] ∧ ¬ SafeUri [0x61, 0x5C, 10, 0x62] ∧
-    uriD (uriE [0x61, 0x5C, 10, 0x62]) = some [0x61, 0x5C, 0x5C, 0x61, 0x20, 0x62] := by decide
+/-- `"\\\\\\a 41"` (escaped backslash, escaped line feed, `41`) is stored as `\\\\`, LF, `41` — no longer `\\41` — and that
+value is safe -/
+theorem fixed_escaped_linebreak_after_backslash :
+    strD [0x22, 0x5C, 0x5C, 0x5C, 0x61, 0x20, 0x34, 0x31, 0x22] = some [0x5C, 0x5C, 10, 0x34, 0x31] ∧ SafeStr [0x5C, 0x5C, 10, 0x34, 0x31] ∧
+    strD (strE [0x5C, 0x5C, 10, 0x34, 0x31]) = some [0x5C, 0x5C, 10, 0x34, 0x31] := by decide
 
-/-- `C03-url-control-char`: U+0001 needs no quotes for `helper.uri`, and `url(<U+0001>)` is not a URI token
-(checked with the generated URI production itself). -/
-theorem finding_url_control_char :
-    uriE [1] = [0x75, 0x72, 0x6C, 0x28, 1, 0x29] ∧ ¬ SafeUri [1] ∧ Gen.C03.uriRe.first (uriE [1]) = none := by decide
+/-- `url("a\\<LF>b")`: the line continuation is removed as in any other string -/
+theorem fixed_uri_line_continuation :
+    uriD [0x75, 0x72, 0x6C, 0x28, 0x22, 0x61, 0x5C, 0xA, 0x62, 0x22, 0x29] = some [0x61, 0x62] ∧ SafeUri [0x61, 0x62] := by decide
+
+/-- a URL with a control character is quoted: U+0001 is written `url("<U+0001>")`, one URI token, read back as U+0001 -/
+theorem fixed_url_control_char :
+    uriE [1] = [0x75, 0x72, 0x6C, 0x28, 0x22, 1, 0x22, 0x29] ∧ SafeUri [1] ∧
+    Gen.C03.uriRe.first (uriE [1]) = some 8 ∧ uriD (uriE [1]) = some [1] := by decide
 
 /-- `C03-uri-trailing-backslash`: `url(\,\\)` is stored as `\,\\`; the comma forces quotes and `"\,\\\"` never closes. -/
 theorem finding_uri_trailing_backslash :
     uriD [0x75, 0x72, 0x6C, 0x28, 0x5C, 0x2C, 0x5C, 0x5C, 0x29] = some [0x5C, 0x2C, 0x5C, 0x5C] ∧ ¬ SafeUri [0x5C, 0x2C, 0x5C, 0x5C] ∧
     Gen.C03.uriRe.first (uriE [0x5C, 0x2C, 0x5C, 0x5C]) = none := by decide
 
-/-- `C03-comment-unescaped`: `/*a\2a/b*/` is stored as `/*a*/b*/`, of which only `/*a*/` is a comment. -/
-theorem finding_comment_unescaped :
-    tokValue .other [0x2F, 0x2A, 0x61, 0x5C, 0x32, 0x61, 0x2F, 0x62, 0x2A, 0x2F] = [0x2F, 0x2A, 0x61, 0x2A, 0x2F, 0x62, 0x2A, 0x2F] ∧ lexComment [0x2F, 0x2A, 0x61, 0x2A, 0x2F, 0x62, 0x2A, 0x2F] = some 5 ∧
-    Gen.C03.commentRe.first [0x2F, 0x2A, 0x61, 0x2A, 0x2F, 0x62, 0x2A, 0x2F] = some 5 := by decide
-
 /-- `C03-ident-not-reescaped`: `\31 a` is stored and written as `1a`, which is no identifier. -/
 theorem finding_ident_not_reescaped :
     tokValue .other [0x5C, 0x33, 0x31, 0x20, 0x61] = [0x31, 0x61] ∧ lexIdent [0x31, 0x61] = none ∧
     Gen.C03.identRe.first [0x31, 0x61] = none := by decide
+
+/-! the two translators (this check's and C05's) read the same productions from the source -/
+example : Gen.C03.stringRe = Gen.C05.reSTRING ∧ Gen.C03.uriRe = Gen.C05.reURI ∧ Gen.C03.identRe = Gen.C05.reIDENT ∧
+    Gen.C03.commentRe = Gen.C05.reCOMMENT ∧ Gen.C03.unicodesubRe = Gen.C05.unicodesubRe ∧
+    Gen.C03.stringsubRe = Gen.C05.stringsubRe := by decide
 
 end CssVerif.C03
